@@ -154,6 +154,7 @@ def check_execstack(ev, seen, tier="quick"):
     for cfg in cfgs:
         check_execstack_cfg(ev, seen, cfg)
     check_execstack_cfg(ev, seen, Cfg("asm", instr="minimal"), minimal=True)
+    check_execstack_cfg(ev, seen, Cfg("asm", instr="coverage"), minimal=True)      # -DCOVERAGE=ON: objects of the static library
 
 
 def check_execstack_cfg(ev, seen, cfg, minimal=False):
